@@ -3,6 +3,9 @@ C13 line-protocol driver.  One case = one admin handler + one request:
 
   req  <side> <addr> <origins> <eo> <acl> <pats> <idx> <method> <host> <path> <upg> <origin> <referer> <tls>
   load <side> <addr> …same fields…     the same case driven through caddy.Load of a JSON config
+  hist <step> …                        a HISTORY of config loads (real caddy.Load each), step = <local>@<remote>, local = n | d | a0 | a1,
+                                       remote = ~ | a2=<acl> | a3=<acl>; after each load every admin address configured so far is
+                                       probed over the network (HTTP / mutual TLS with the keys 0..3): L<id>:up|dn R<id>:dn|<4 × s m p r>
   ip   <hex>                           netip.ParseAddr + IsUnspecified / IsLoopback of a host → n | u | l | o
   url  <hex>                           net/url.Parse on printable ASCII without `%` → `ok <scheme> <host>` | `err`
   cf   <args> <block>                  the Caddyfile `admin` global option: args = . | hex,hex…  block = ~ (none) |
@@ -34,6 +37,7 @@ import CaddyModel.C13.Listen
 import CaddyModel.C13.Caddyfile
 import CaddyModel.C13.Url
 import CaddyModel.C13.Netip
+import CaddyModel.C13.Lifecycle
 
 namespace CaddyModel.C13
 
@@ -296,7 +300,54 @@ def handleIp : List String → String
     | none => "bad-op"
   | _ => "bad-op"
 
+/-- one step of a `hist` line: `<local>@<remote>` -/
+def parseHistStep (s : String) : Option LoadCfg :=
+  match s.splitOn "@" with
+  | [l, r] =>
+    let loc : Option LocalCfg :=
+      if l == "n" then some .absent else if l == "d" then some .disabled
+      else if l == "a0" then some (.listen 0) else if l == "a1" then some (.listen 1) else none
+    match loc with
+    | none => none
+    | some loc =>
+      if r == "~" then some ⟨loc, none⟩
+      else match r.splitOn "=" with
+        | [a, acl] =>
+          if (a != "a2" && a != "a3") || l == "n" then none
+          else match parseAcl acl with
+            | some (some acl) =>
+              if acl.all (fun e => e.keys.all (· < 4)) then some ⟨loc, some (if a == "a2" then 2 else 3, acl)⟩ else none
+            | _ => none
+        | _ => none
+  | _ => none
+
+def histSeen (hist : List LoadCfg) : List Nat × List Nat :=
+  (([0, 1] : List Nat).filter (fun a => hist.any (fun c => c.loc == .listen a)),
+   ([2, 3] : List Nat).filter (fun a => hist.any (fun c => match c.remote with | some (b, _) => a == b | none => false)))
+
+def showLife (s : Life) (seen : List Nat × List Nat) : String :=
+  " ".intercalate
+    (seen.1.map (fun a => s!"L{a}:" ++ (if s.liveLocal.any (·.addr == a) then "up" else "dn")) ++
+     seen.2.map (fun a => s!"R{a}:" ++
+       (match s.liveRemote.find? (·.addr == a) with
+        | some srv => String.ofList ([0, 1, 2, 3].map (keyAnswer srv.acl))
+        | none => "dn")))
+
+/-- the answers after each prefix of the history -/
+def histAnswers : List LoadCfg → List LoadCfg → Life → List String
+  | _, [], _ => []
+  | done, c :: rest, s => showLife (load s c) (histSeen (done ++ [c])) :: histAnswers (done ++ [c]) rest (load s c)
+
+/-- `hist <step> …`: a history of config loads; after each load, for every admin address configured
+    so far: is a server up there, and what does it answer the keys 0..3 -/
+def handleHist (steps : List String) : String :=
+  if steps.isEmpty || steps.length > 8 then "bad-op"
+  else match steps.mapM parseHistStep with
+    | some hist => " / ".intercalate (histAnswers [] hist Life.init)
+    | none => "bad-op"
+
 def handle : List String → String
+  | "hist" :: rest => handleHist rest
   | "ip" :: rest => handleIp rest
   | "url" :: rest => handleUrl rest
   | "req" :: rest => handleReq false rest
